@@ -12,20 +12,21 @@ from checks import eam_common as EC
 from checks import eam_potable as EP
 
 
-def write_target(target, route, model, eampots, pairpots, dip, quad, cutoff, nr, cutoff_rho, nrho, out):
+def write_target(target, route, model, eampots, pairpots, dip, quad, cutoff, nr, cutoff_rho, nrho, out, cutoff_arg=None):
   import atsim.potentials as ap
   from atsim.potentials import eam_tabulation as et
   dr, drho = cutoff / (nr - 1), cutoff_rho / (nrho - 1)
+  kw = {} if cutoff_arg is None else dict(cutoff=cutoff_arg)     # the documented `cutoff` argument of the setfl functions (a header field)
   if target == "setfl":
     if route == "class":
       et.SetFL_EAMTabulation(pairpots, eampots, cutoff, nr, cutoff_rho, nrho).write(out)
     else:
-      ap.writeSetFL(nrho, drho, nr, dr, eampots, pairpots, out)
+      ap.writeSetFL(nrho, drho, nr, dr, eampots, pairpots, out, **kw)
   elif target == "setfl_fs":
     if route == "class":
       et.SetFL_FS_EAMTabulation(pairpots, eampots, cutoff, nr, cutoff_rho, nrho).write(out)
     else:
-      ap.writeSetFLFinnisSinclair(nrho, drho, nr, dr, eampots, pairpots, out)
+      ap.writeSetFLFinnisSinclair(nrho, drho, nr, dr, eampots, pairpots, out, **kw)
   elif target == "eam_adp":
     et.ADP_EAMTabulation(pairpots, eampots, dip, quad, cutoff, nr, cutoff_rho, nrho).write(out)
   elif target == "DL_POLY_EAM":
@@ -72,6 +73,38 @@ def replay_written_first(target, other, model, nr, nrho, w, route):
     bad = ["%s: %s" % (type(e).__name__, e)]
   rec = dict(kind="eam_written_first", target=target, written_first=other, model=model.describe(), nr=nr, nrho=nrho, cutoff=cutoff, cutoff_rho=cutoff_rho, mismatches=bad[:10])
   return (bool(bad), "the same lists and potentials were written as %s first; the %s file then written: " % (other, target) + ("; ".join(bad[:3]) or "agrees with the model"), rec)
+
+
+def replay_cutoff_arg(target, model, nr, nrho, w):
+  """concrete: writeSetFL*(..., cutoff=x) for the witness x and a few fractions of the table's extent"""
+  import io
+  cutoff, cutoff_rho, dr, drho = EP._grid(w, nr, nrho)
+  funcs = EC.concrete_functions(EC.function_names(model))
+  cands = []
+  try:
+    x = float(w.get("cutarg"))
+    if 1e-6 < x < 1e6:
+      cands.append(x)
+  except Exception:  # noqa
+    pass
+  cands += [0.3 * cutoff, 0.6 * cutoff, cutoff, 1.5 * cutoff]
+  last = None
+  for x in cands:
+    eampots, pairpots, dip, quad = EC.build_objects(model, lambda name: funcs[name], EC.conc_meta)
+    try:
+      out = io.StringIO()
+      write_target(target, "func", model, eampots, pairpots, dip, quad, cutoff, nr, cutoff_rho, nrho, out, cutoff_arg=x)
+      parsed, O, E = observed_expected(target, out.getvalue(), model, nr, nrho, dr, drho, EC.float_alg(funcs), EC.conc_meta)
+      bad = EC.compare_dicts(O, E, 1e-12, 1e-12)
+      if abs(parsed["cutoff"] - x) > 1e-9 * x:
+        bad.append("header cutoff %r, argument %r" % (parsed["cutoff"], x))
+    except Exception as e:  # noqa
+      bad = ["%s: %s" % (type(e).__name__, e)]
+    rec = dict(kind="eam_cutoff_arg", target=target, model=model.describe(), nr=nr, nrho=nrho, cutoff=cutoff, cutoff_rho=cutoff_rho, cutoff_argument=x, mismatches=bad[:10])
+    last = (bool(bad), "written with cutoff=%r (table extent %r): " % (x, cutoff) + ("; ".join(bad[:3]) or "agrees with the model"), rec)
+    if bad:
+      return last
+  return last
 
 
 class Mutable(object):
@@ -143,11 +176,12 @@ def replay_rewrite(target, model, nr, nrho, w):
 
 
 def api_case(target, elements, pairs, nr, nrho, route="class", rot=0, dip=None, quad=None, extra_vcs=None, rewrite=True, surplus=None, shared=None, fs_undeclared=None,
-             written_first=None):
+             written_first=None, energy_override=None, cutoff_arg=False):
   """written_first: another target of the same family; the same python objects (lists, potentials) are written in that format
   first - the caller's objects are not the writer's to change"""
   fs = target.endswith("_fs")
   model = EC.Model(elements, pairs, fs=fs, dip=dip, quad=quad, pair_list_rotation=rot, surplus=surplus, shared=shared, fs_undeclared=fs_undeclared)
+  model.energy_override = set(k for k in (energy_override or []) if model.pairs.get(k) is not None)
   res = new_result("api %s %s nr=%d nrho=%d %s%s" % (target, model.describe(), nr, nrho, route, " after the same objects were written as %s" % written_first if written_first else ""))
 
   def fn():
@@ -176,6 +210,11 @@ def api_case(target, elements, pairs, nr, nrho, route="class", rot=0, dip=None, 
         tab = et.ADP_EAMTabulation(pairpots, eampots, d, q, cutoff, nr, cutoff_rho, nrho)
     if tab is not None:
       tab.write(out)
+    elif cutoff_arg:
+      # writeSetFL(..., cutoff=x): x is what the header announces; the nr rows of spacing dr are tabulated whatever x is
+      ca = sym("cutarg")
+      assume(ca > 0)
+      write_target(target, route, model, eampots, pairpots, d, q, cutoff, nr, cutoff_rho, nrho, out, cutoff_arg=ca)
     else:
       write_target(target, route, model, eampots, pairpots, d, q, cutoff, nr, cutoff_rho, nrho, out)
     second = None
@@ -203,6 +242,9 @@ def api_case(target, elements, pairs, nr, nrho, route="class", rot=0, dip=None, 
     except eamtables.FormatError as e:
       raise Structural("format", "reader rejects the file: %s" % e)
     vcs = EC.vcs_from(path, O, E)
+    if cutoff_arg and not wrong:
+      from symx.vc import VC, eq_formula
+      vcs.append(VC("header cutoff", eq_formula(T(path, parsed["cutoff"]), z3.Real("cutarg")), info=dict(key="header-cutoff-argument")))
     if extra_vcs is not None:
       vcs.extend(extra_vcs(path, parsed, model, nr, nrho, dr, drho, wrong))
     if second is not None and not wrong:
@@ -219,6 +261,8 @@ def api_case(target, elements, pairs, nr, nrho, route="class", rot=0, dip=None, 
     return vcs
 
   def replay(v, w, path, structural):
+    if cutoff_arg:
+      return replay_cutoff_arg(target, model, nr, nrho, w)
     if written_first:
       return replay_written_first(target, written_first, model, nr, nrho, w, route)
     first = EP.replay_eam_api(target, model, nr, nrho, w, route)
@@ -422,4 +466,35 @@ def written_first_cases(target, tier):
           extra = dict(dip=cov[1 % len(cov)], quad=cov[2 % len(cov)])
         out.append(Case("api %s %s after %s %s" % (target, "/".join(order), other, route), api_case, target=target, elements=order, pairs=cov[i % len(cov)], nr=3, nrho=2 + i % 2,
                         route=route, rot=i, rewrite=False, written_first=other, **extra))
+  return out
+
+
+def energy_override_cases(target, tier):
+  """pair potentials that are Potential subclasses overriding energy(), declared in either species order"""
+  from symx.run import Case
+  out = []
+  orders = [("Cu", "Al"), ("Zr", "Cu", "Al")] + ([] if tier == "quick" else [("Al", "Cu"), ("Cu",), ("Al", "Zr", "Cu")])
+  for i, order in enumerate(orders):
+    keys = EC.all_pair_keys(order)
+    for j in range(2 if tier == "quick" else 4):
+      st = {}
+      for n, k in enumerate(keys):
+        c = (i + j + n) % 3
+        st[k] = (k[0], k[1]) if (c == 0 or k[0] == k[1]) else ((k[1], k[0]) if c == 1 else (None if n % 2 else (k[1], k[0])))
+      extra = {}
+      if target == "eam_adp":
+        extra = dict(dip=dict(st), quad=dict(st))
+      out.append(Case("api %s %s energy() overridden #%d" % (target, "/".join(order), j), api_case, target=target, elements=order, pairs=st, nr=3, nrho=2 + j % 2,
+                      route="class" if (i + j) % 2 or target == "eam_adp" else "func", rot=i + j, energy_override=[k for n, k in enumerate(keys) if (n + j) % 2 == 0], **extra))
+  return out
+
+
+def cutoff_arg_cases(target, tier):
+  from symx.run import Case
+  out = []
+  orders = [("Cu",), ("Al", "Cu")] + ([] if tier == "quick" else [("Zr", "Cu", "Al")])
+  for i, order in enumerate(orders):
+    cov = EC.covering_pair_states(order, seed=i + 11)
+    out.append(Case("api %s %s explicit cutoff argument" % (target, "/".join(order)), api_case, target=target, elements=order, pairs=cov[i % len(cov)], nr=4, nrho=3,
+                    route="func", rot=i, rewrite=False, cutoff_arg=True))
   return out
